@@ -1147,7 +1147,10 @@ func (c *Conn) isMessageTooLarge(len int) bool {
 
 //go:norace
 func (c *Conn) validFrame(opcode MessageType, fin, res1, res2, res3, expectingFragments bool) error {
-	if res1 && !c.enableCompression {
+	// RSV1 marks a compressed message: it is legal only on the first frame
+	// of a data message, and only if permessage-deflate was negotiated.
+	if res1 && (!c.enableCompression || !c.remoteCompressionEnabled ||
+		(opcode != TextMessage && opcode != BinaryMessage)) {
 		return ErrReserveBitSet
 	}
 	if res2 || res3 {
